@@ -76,6 +76,7 @@ type E7Spec struct {
 	ReadOnly      []ReadOnlySpec     `json:"read_only_tables"`
 	PathPattern   []FuncRuleSpec     `json:"path_as_pattern"`
 	FreshRecord   []FreshRecordSpec  `json:"fresh_record"`
+	CopiedRecord  []CopiedRecordSpec `json:"copied_record"`
 }
 
 type FuncRuleSpec struct {
@@ -285,6 +286,9 @@ func runE7(p *Program, sp *Spec, c *Collector) {
 	}
 	for _, fr := range t.FreshRecord {
 		runFreshRecord(p, c, fr)
+	}
+	for _, cr := range t.CopiedRecord {
+		runCopiedRecord(p, c, cr)
 	}
 	for _, n := range t.NoExit {
 		runNoExit(p, sp, c, n)
